@@ -24,7 +24,7 @@ RULE = (
 ASSUMPTIONS = ["bodies of function nodes are the unit of 'executing'; gate functions are synchronous and cannot be held open"]
 
 
-def gen_wide(rng: random.Random, depth: int, prefix: str, avail_in: list[str], *, name: str, force_param: str | None = None) -> dict:
+def gen_wide(rng: random.Random, depth: int, prefix: str, avail_in: list[str], *, name: str, force_param: str | None = None, allow_interrupt: bool = True) -> dict:
     own_ext = [f"{prefix}i{k}" for k in range(rng.randint(1, 2))]
     ext = list(own_ext)
     lists: list[str] = []
@@ -40,14 +40,14 @@ def gen_wide(rng: random.Random, depth: int, prefix: str, avail_in: list[str], *
             i = idx
             idx += 1
             if depth > 0 and r < 0.2:
-                inner = gen_wide(rng, depth - 1, f"{prefix}g{i}_", [a for a in avail if a not in lists], name=f"{prefix}g{i}")
+                inner = gen_wide(rng, depth - 1, f"{prefix}g{i}_", [a for a in avail if a not in lists], name=f"{prefix}g{i}", allow_interrupt=allow_interrupt)
                 nodes.append({"kind": "graph", "name": f"{prefix}g{i}", "graph": inner})
                 ext += [e for e in inner["ext"] if e not in ext]
                 lists += [x for x in inner["lists"] if x not in lists]
                 new_outs += gen.program_outputs(inner)
             elif depth > 0 and r < 0.35:
                 m = f"{prefix}m{i}"
-                inner = gen_wide(rng, depth - 1, f"{prefix}g{i}_", [a for a in avail if a not in lists], name=f"{prefix}g{i}", force_param=m)
+                inner = gen_wide(rng, depth - 1, f"{prefix}g{i}_", [a for a in avail if a not in lists], name=f"{prefix}g{i}", force_param=m, allow_interrupt=False)
                 nodes.append({"kind": "graph", "name": f"{prefix}g{i}", "graph": inner, "map_over": [m], "map_mode": "zip", "error_handling": "raise"})
                 ext += [e for e in inner["ext"] if e not in ext]
                 lists += [m] + gen.program_outputs(inner) + [x for x in inner["lists"] if x not in lists]
@@ -61,7 +61,10 @@ def gen_wide(rng: random.Random, depth: int, prefix: str, avail_in: list[str], *
                 params = list(dict.fromkeys(params))
                 out = f"{prefix}o{i}"
                 nd_new = {"kind": "fn", "name": f"{prefix}n{i}", "params": [{"name": p} for p in params], "outs": [out], "async": None if rng.random() < 0.9 else False}
-                if rng.random() < 0.15:
+                if allow_interrupt and prefix and params and rng.random() < 0.12:
+                    # an interrupt whose (async) handler answers by itself: the handler is a node function too
+                    nd_new = {"kind": "interrupt", "name": f"{prefix}n{i}", "params": [{"name": p} for p in params if p not in lists][:2] or [{"name": params[0]}], "outs": [out], "script": [], "async_handler": True}
+                elif rng.random() < 0.15:
                     nd_new["gen"] = True  # async generator node: its body runs while the framework drains it
                 nodes.append(nd_new)
                 new_outs.append(out)
@@ -108,6 +111,8 @@ def gen_case(rng: random.Random, tier: str) -> dict:
         "top_map": top_map,
         "top_map_n": top_n,
         "tier": tier,
+        # an earlier top-level call made from the SAME task with another limit, ending by failure / FAILED result / completion
+        "pre_run": rng.choice([None, None, {"k1": rng.choice([3, 4, 5]), "end": rng.choice(["raise", "continue", "ok", "pause"])}]),
     }
 
 
@@ -164,6 +169,8 @@ def run_case(doc: dict) -> dict:
         return w
 
     try:
+        if doc.get("pre_run"):
+            _sequence(doc, g, values, op, kw, res, rts, viol)
         ref = world({"schedule": {"mode": "delay", "seed": 1, "choices": [0, 1]}, "shuffle": None, "max_concurrency": None}, "unlimited")
         base = summary(ref)
         if base[0] == "raised":
@@ -210,11 +217,49 @@ def run_case(doc: dict) -> dict:
     return res
 
 
+def _sequence(doc, g, values, op, kw, res, rts, viol) -> None:
+    """Two top-level calls from one task: the first (limit k1) fails / pauses / completes, the second must obey ITS limit k."""
+    from hgsim.case import build
+    from hgsim.rt import Runtime
+    from hgsim.world import call_async, make_runner, patched
+
+    pre = doc["pre_run"]
+    k, k1 = doc["k"], pre["k1"]
+    rt = Runtime(schedule={"mode": "hold", "seed": doc["hold_seeds"][0]}, faults=[{"kind": "raise", "node": "pre_f", "inv": 0, "fid": 9}] if pre["end"] in ("raise", "continue") else [])
+    pre_nodes = [{"kind": "fn", "name": "pre_a", "params": [], "outs": ["pre_x"]}, {"kind": "fn", "name": "pre_b", "params": [], "outs": ["pre_y"]}, {"kind": "fn", "name": "pre_f", "params": [{"name": "pre_x"}], "outs": ["pre_z"]}]
+    if pre["end"] == "pause":
+        pre_nodes.append({"kind": "interrupt", "name": "pre_i", "params": [{"name": "pre_y"}], "outs": ["pre_ans"], "script": ["pause"], "async_handler": True})
+    with patched(rt):
+        graph, _c = build(g, rt, "async")
+        pre_graph, _c2 = build({"name": "pre", "nodes": pre_nodes, "order": list(range(len(pre_nodes)))}, rt, "async")
+        runner = make_runner("async", rt)
+        vals = values(graph) if callable(values) else dict(values)
+        fn = getattr(runner, op)
+
+        async def seq():
+            rt.limit["c0"] = k1
+            try:
+                await runner.run(pre_graph, {}, max_concurrency=k1, error_handling="continue" if pre["end"] == "continue" else "raise")
+            except Exception:  # noqa: BLE001 - the first call may fail; the second is what is measured
+                pass
+            rt.limit["c0"] = k
+            return await fn(graph, dict(vals), max_concurrency=k, **kw)
+
+        out = call_async(rt, [seq], limits=[k1])[0]
+    rts.append(rt)
+    res["runs"] += 2
+    res["stats"]["sequence_cases_" + pre["end"]] = 1
+    for c, d in rt.violations:
+        viol.append((f"sequence[{pre['end']}]:{c}", dict(d, first_call_limit=k1, second_call_limit=k)))
+    if out["status"] in ("deadlock", "step_cap", "no_outcome"):
+        viol.append((f"sequence[{pre['end']}]:{out['status']}", {"k1": k1, "k": k}))
+
+
 def shrink_candidates(doc: dict):
     from checks.c02 import shrink_program
 
     yield from shrink_program(doc)
-    for key, val in (("top_map", None), ("sweep", False)):
+    for key, val in (("top_map", None), ("sweep", False), ("pre_run", None)):
         if doc.get(key):
             c = copy.deepcopy(doc)
             c[key] = val
